@@ -78,6 +78,7 @@ ALGOS = ["pgdb", "pgdm", "fista"]
 LOSSES = ["se", "fse", "re", "fre"]
 KAPPA_REC = 8.0        # exact-data recovery runs only on tester sets at most this ill-conditioned (cost ~ cond^2 iterations)
 MAX_IT_RECOVERY = 20000
+MAX_IT_PROJ = 5000         # inner physical projection (library default 100000); a hit prints a warning => run is grey
 
 
 # ----------------------------------------------------------------- shards
@@ -87,11 +88,11 @@ def shards(tier, seed):
     out = []
     # (shape, tomo) -> (cases per flag, parts per flag, cost of one case in cpu-seconds (measured, rough))
     if tier == "quick":
-        plan = {("S1", "qst"): (12, 2, 2.0), ("S1", "povmt"): (8, 2, 4.0), ("S1", "qpt"): (6, 3, 9.0), ("S1", "qmpt"): (4, 4, 20.0),
-                ("S3", "qst"): (4, 2, 8.0)}
+        plan = {("S1", "qst"): (12, 3, 2.5), ("S1", "povmt"): (4, 4, 14.0), ("S1", "qpt"): (4, 4, 10.0), ("S1", "qmpt"): (3, 3, 30.0),
+                ("S3", "qst"): (4, 4, 10.0)}
     else:
-        plan = {("S1", "qst"): (96, 4, 2.0), ("S1", "povmt"): (64, 4, 4.0), ("S1", "qpt"): (48, 8, 9.0), ("S1", "qmpt"): (32, 8, 20.0),
-                ("S3", "qst"): (32, 4, 8.0), ("S3", "povmt"): (16, 4, 20.0), ("S3", "qpt"): (4, 4, 150.0), ("S3", "qmpt"): (2, 2, 300.0),
+        plan = {("S1", "qst"): (120, 4, 2.5), ("S1", "povmt"): (40, 5, 14.0), ("S1", "qpt"): (40, 5, 10.0), ("S1", "qmpt"): (24, 8, 30.0),
+                ("S3", "qst"): (32, 4, 10.0), ("S3", "povmt"): (12, 4, 40.0), ("S3", "qpt"): (4, 4, 150.0), ("S3", "qmpt"): (2, 2, 300.0),
                 ("S2", "qst"): (12, 3, 20.0)}
     for (shape, tomo), (n, parts, cost) in plan.items():
         per = int(math.ceil(n / parts))
@@ -555,11 +556,11 @@ def install(ctx):
                 continue
             h = int(algo_option.num_history_stopping_criterion_gradient_descent)
             stopped = float(np.sum(dr.error_values[-h:])) <= algo_option.eps
-            if not stopped:
+            if not stopped and int(dr.k) >= int(algo_option.max_iteration_optimization):
                 ctx.count("backtracking:exact-data:iteration-limit-hit(grey)")
                 ctx.skip("exact-data:backtracking-recovers")
                 continue
-            ctx.count("backtracking:exact-data:terminated-by-criterion")
+            ctx.count("backtracking:exact-data:terminated-by-criterion" if stopped else "backtracking:exact-data:ended-without-criterion-or-limit")
             if algo_option.var_start is not None and not any(v is algo_option.var_start for v in M.phys_starts):
                 ctx.skip("exact-data:backtracking-recovers")
                 continue
@@ -567,12 +568,18 @@ def install(ctx):
             e = float(np.linalg.norm(so - meta["truth"]))
             fam = "squared-error" if ln in ("se", "fse") else "relative-entropy"
             fx_end = float(dr.fx[-1]) if dr.fx is not None else float("nan")
-            # mechanism class of a miss: the loss of the true object is 0 and the loss families are non-negative on
-            # normalised distributions, so a negative final loss tells that the model distributions were not normalised
-            mech = "final-loss-negative" if fx_end < -1e-12 else "final-loss-nonnegative"
+            # mechanism class of a miss.  The loss of the true object is 0 and both loss families are non-negative on
+            # normalised distributions: a negative final loss tells that the model distributions were not normalised
+            # (equality constraint met only to sqrt(eps_proj_physical)); otherwise a last step length < 2^-10 tells
+            # that the Armijo line search collapsed (the criterion fired on a vanishing step, not on a small gradient)
+            last_alpha = float(dr.alpha[-1]) if dr.alpha else float("nan")
+            mech = ("ended-without-criterion-or-limit" if not stopped else "final-loss-negative" if fx_end < -1e-12
+                    else "line-search-collapsed" if last_alpha < 2.0 ** -10 else "small-decrease-with-regular-step")
+            pe = "T" if ti["flag"] else "F"
+            ctx.count(f"recovery-distance:{fam}:para_eq={pe}:{meta['kind']}:<=1e{int(math.ceil(math.log10(max(e, 1e-16))))}")
             M.num("exact-data:backtracking-recovers", e, tp, tf,
-                  key=f"{who}:{tag}:exact-data-not-recovered-at-criterion-stop:{meta['kind']}:{mech}",
-                  info=dict(info, k=int(dr.k), fx_end=fx_end, smin=ti["smin"], last_alpha=float(dr.alpha[-1]) if dr.alpha else None,
+                  key=f"LossMinimizationEstimator:pgdb:{fam}:para_eq={pe}:exact-data-not-recovered-at-criterion-stop:{meta['kind']}:{mech}",
+                  info=dict(info, k=int(dr.k), fx_end=fx_end, smin=ti["smin"], last_alpha=last_alpha,
                             last_errors=[float(x) for x in dr.error_values[-3:]]))
             if fam == "squared-error" and getattr(loss_option, "mode_weight", None) == "identity":
                 # loss = |A (v - v_true)|^2 <= smax^2 dist^2 ; the truth has loss 0
@@ -705,8 +712,8 @@ def make_algo(an, **kw):
 
 
 # iteration caps of the runs that are judged for feasibility only (every iterate is promised feasible, whatever the cap)
-CAP = {("S1", "qst"): 1000, ("S1", "povmt"): 1000, ("S1", "qpt"): 300, ("S1", "qmpt"): 200, ("S3", "qst"): 300, ("S3", "povmt"): 200,
-       ("S3", "qpt"): 25, ("S3", "qmpt"): 15, ("S2", "qst"): 150}
+CAP = {("S1", "qst"): 1000, ("S1", "povmt"): 120, ("S1", "qpt"): 80, ("S1", "qmpt"): 25, ("S3", "qst"): 200, ("S3", "povmt"): 50,
+       ("S3", "qpt"): 12, ("S3", "qmpt"): 8, ("S2", "qst"): 60}
 CAP_REC = {("S3", "qpt"): 2500, ("S3", "qmpt"): 1500}
 
 
@@ -822,7 +829,7 @@ def run_shard(ctx):
                     ctx.nontrivial(t, shape, flag, m, cfg, meta["cls"], np.hstack([np.ravel(q) for _, q in ds]))
 
             # ------------------------------------------------------- projected linear estimator
-            seq = [ds for _, ds in datasets]
+            seq = [datasets[j][1] for j in rng.permutation(len(datasets))]
             for order in ("eq_ineq", "ineq_eq"):
                 ple = ProjectedLinearEstimator(mode_proj_order=order)
                 ok, res = run_est(ple.calc_estimate_sequence, qt, seq, is_computation_time_required=True)
@@ -852,8 +859,12 @@ def run_shard(ctx):
             def rorder():
                 return str(rng.choice(["eq_ineq", "ineq_eq"]))
 
-            for an in ALGOS:
-                for ln in losses:
+            # core: every algorithm with one squared-error and one relative-entropy loss; generic / fast alternate with the
+            # case and the algorithm, so that the 12 combinations are covered over two consecutive cases
+            for ia, an in enumerate(ALGOS):
+                g = (i + ia) % 2
+                pair = ["fse", "fre"] if len(losses) == 2 else [["se", "fse"][g], ["fre", "re"][g]]
+                for ln in pair:
                     ds = far[int(rng.integers(0, len(far)))] if rng.random() < 0.7 else noisy[int(rng.integers(0, len(noisy)))]
                     runs.append((an, ln, "identity", ds, dict(max_iteration_optimization=cap, mode_proj_order=rorder()), "core"))
             # (d) recovery by backtracking: one squared-error and one relative-entropy run (generic / fast alternate)
@@ -895,14 +906,21 @@ def run_shard(ctx):
                     ctx.violation(f"loss-ctor:{ln}:" + ctx.exc_key(lo), {"weights": wm})
                     continue
                 loss, loss_opt = lo
+                kw.setdefault("max_iteration_proj_physical", MAX_IT_PROJ)
                 algo, algo_opt = make_algo(an, **kw)
                 ok, res = run_est(lme.calc_estimate, qt, ds, loss, loss_opt, algo, algo_opt,
                                   is_computation_time_required=True, is_detailed_results_required=True)
                 ctx.count(f"runs:{purpose}")
                 if not ok:
                     oc = opts_class(kw.get("on_algo_eq_constraint", True), kw.get("on_algo_ineq_constraint", True))
-                    ctx.violation(f"LossMinimizationEstimator:{an}:{ln}:{ti['tag']}:opts={oc}:" + ctx.exc_key(res),
-                                  {"weights": wm, "data": M.meta_of(ds)["cls"], "purpose": purpose, "msg": str(res)[:200]})
+                    if oc != "eq+ineq":
+                        # nothing is promised with a constraint option off (iterates are not confined): recorded only
+                        ctx.count(f"recorded:exception:opts={oc}:{type(res).__name__}@{ctx.exc_site(res)}")
+                        continue
+                    fam = "squared-error" if ln in ("se", "fse") else "relative-entropy"
+                    ctx.violation(f"LossMinimizationEstimator:{an}:{fam}:para_eq={'T' if flag else 'F'}:" + ctx.exc_key(res),
+                                  {"type": t, "loss": ln, "weights": wm, "data": M.meta_of(ds)["cls"], "purpose": purpose,
+                                   "options": {k: v for k, v in kw.items() if k != "var_start"}, "msg": str(res)[:300]})
                     continue
                 register(f"lme:{an}:{ln}:{wm}:{purpose}:{kw.get('mode_proj_order')}:{kw.get('on_algo_eq_constraint', True)}:"
                          f"{kw.get('on_algo_ineq_constraint', True)}", ds)
